@@ -478,7 +478,8 @@ func unitC17(e common.Env, p *common.Part) {
 			}
 			addr := l.Addr().String()
 			l.Close()
-			late := env.clientAddr(2, addr, "d", honestAuth(env.nodes[3].ident, "d"))
+			drops := &dropCounter{}
+			late := env.clientAddrLog(2, addr, "d", honestAuth(env.nodes[3].ident, "d"), drops)
 			done := make(chan struct{})
 			go func() {
 				defer close(done)
@@ -507,6 +508,16 @@ func unitC17(e common.Env, p *common.Part) {
 				}
 				last = k
 			}
+			// no-loss: the sender reports every message it gives up on ("timeout sending ..., dropping message"); when it reported
+			// none, every one of the messages was accepted for sending and the peer that came up late must have received them all
+			if d := drops.n(); d == 0 && len(got) < total {
+				first := -1
+				if len(got) > 0 {
+					first = int(binary.BigEndian.Uint32(got[0].Topic[8:]))
+				}
+				return "lost/peer-down-when-sent", fmt.Sprintf("%d messages were sent to a peer that started listening 300 ms later; the sender reported no message as dropped, yet only %d arrived within 20 s of the last Send (first one to arrive: #%d)", total, len(got), first)
+			}
+			p.Count("late_peer_messages_all_received", int64(len(got)))
 			p.Count("messages_checked", int64(len(got)))
 			p.Count("fault_scenarios", 1)
 			if len(got) < 1000 {
